@@ -29,6 +29,26 @@ for f in sorted(glob.glob('/verif/evidence/*.json')):
         print('evidence NOT a quiet record', f, '; '.join(probs))
     else:
         print('evidence valid', f)
+# stale evidence: a unit template, an include, a native stand-in or a tool changed after the property's evidence was written -> the check
+# must be re-run before committing (an unfinished proof was once committed this way: C34, round 6)
+reg = json.load(open('/verif/registry.json'))
+tools_m = max(os.path.getmtime(x) for x in ['/verif/tools/rsx.py', '/verif/tools/engine.py', '/verif/tools/scans.py', '/verif/check'])
+incs_m = max([os.path.getmtime(x) for x in glob.glob('/verif/contracts/*.inc')] + [0])
+for pid, c in reg.items():
+    ev = f'/verif/evidence/{pid}.json'
+    if not os.path.exists(ev):
+        continue
+    em = os.path.getmtime(ev)
+    srcs = [f'/verif/contracts/{u}.vt' for u in c.get('v_units', [])]
+    srcs += [f'/verif/native/{n["name"]}/src/main.rs' for n in c.get('native', [])] + [f'/verif/native/{n["name"]}/Cargo.toml' for n in c.get('native', [])]
+    newer = [x for x in srcs if os.path.exists(x) and os.path.getmtime(x) > em + 1]
+    if any(open(x).read().find('//@@ include') >= 0 for x in srcs if x.endswith('.vt') and os.path.exists(x)) and incs_m > em + 1:
+        newer.append('contracts/*.inc')
+    if tools_m > em + 1:
+        newer.append('tools/rsx.py or engine.py')
+    if newer:
+        bad += 1
+        print('evidence STALE for', pid, '- changed since it was written:', ', '.join(os.path.relpath(x, '/verif') for x in newer), '-> re-run ./check', pid)
 for p in sorted(claimed - have):
     bad += 1
     print('evidence missing for claimed property', p)
